@@ -453,6 +453,7 @@ func (c10) Run(tp *Tape, opt RunOpt) *RunOut {
 	type rec struct {
 		invAt    time.Duration // simulated instant of the invocation
 		wokeAt   time.Duration // simulated instant at which its blocking deref fired (-1: never blocked)
+		blockAt  time.Duration // simulated instant at which that blocking deref was entered
 		task     int
 		op       *c10Op
 		inv, ret uint64
@@ -491,6 +492,9 @@ func (c10) Run(tp *Tape, opt RunOpt) *RunOut {
 		case "woke":
 			if r := curOp[ev.Task]; r != nil && !r.done && strings.HasPrefix(ev.A, "future.deref") {
 				r.wokeAt = time.Duration(ev.N)
+				if b, err := strconv.ParseInt(ev.B, 10, 64); err == nil {
+					r.blockAt = time.Duration(b)
+				}
 			}
 		case "ret":
 			if r, ok := recs[ev.A]; ok {
@@ -603,7 +607,9 @@ func (c10) Run(tp *Tape, opt RunOpt) *RunOut {
 			// a deref blocks "until the outcome is available or the caller's context ends": one that was still
 			// blocked when its deadline passed must be released at that instant, not later
 			for _, d := range derefs {
-				if d.op.Deadline > 0 && d.wokeAt >= 0 && d.wokeAt > d.invAt+d.op.Deadline {
+				// (a deref that reached its wait only after the deadline had passed - its thread was not scheduled in
+				// between - was never "still blocked when the deadline passed": it returns at once)
+				if d.op.Deadline > 0 && d.wokeAt >= 0 && d.wokeAt > d.invAt+d.op.Deadline && d.wokeAt > d.blockAt {
 					viol("O3-deref-outlives-context", "deref-released-after-its-deadline", "deref was invoked at "+d.invAt.String()+" with a deadline of "+d.op.Deadline.String()+" but its wait ended only at "+d.wokeAt.String()+": "+line(d))
 				}
 			}
